@@ -4,6 +4,9 @@
 package placement
 
 //@ spec abstract forced(a *objects.Application) bool
+// recname(s): s names the recovery queue in the sense of common.IsRecoveryQueue (case-insensitive), the notion the
+// partition and the queue ACL check use
+//@ spec abstract recname(s string) bool
 
 // placement: a rule whose queue is refused leaves no candidate behind (the name is reset before the next rule, so an
 // exhausted rule list always ends in a rejection); the recovery queue is only handed to force-created applications;
@@ -14,7 +17,9 @@ package placement
 //@   mode nopanic=off
 //@   loop 1: invariant queueName == ""
 //@   at[forced] call objects.Application.IsCreateForced#1 after: assume ret == forced(app)
-//@   at[recoveryonlyforced] call objects.Application.SetQueuePath#3: assert arg0 == app && arg1 == queueName && queueName != "" && (queueName != common.RecoveryQueueFull || forced(app))
+//@   at[recname] call common.IsRecoveryQueue#1 after: assume ret <==> recname(arg0)
+//@   at[rectest] call common.IsRecoveryQueue#1: assert arg0 == queueName
+//@   at[recoveryonlyforced] call objects.Application.SetQueuePath#3: assert arg0 == app && arg1 == queueName && queueName != "" && (!recname(queueName) || forced(app))
 //@   at[rejectclears] call objects.Application.SetQueuePath#2: assert arg0 == app && arg1 == "" && queueName == ""
 //@   at[errorclears] call objects.Application.SetQueuePath#1: assert arg0 == app && arg1 == ""
 //@   ensures[rejected] err != nil ==> app.queuePath == ""
